@@ -336,7 +336,12 @@ def _ref_keep_token(s, i):
         tok = lw.make_token_reader(pos=i).peek_token(parsing_state=lw.make_parsing_state())
     except LatexWalkerError:
         return None
+    if tok.tok in ('begin_environment', 'end_environment') and not _ENVNAME_OK.match(tok.arg or ''):
+        return None         # the characters an environment name may contain are written down here, not asked of the reader
     return tok.pos_end - i
+
+
+_ENVNAME_OK = re.compile(r'^[A-Za-z0-9*._ :/!^()\[\]-]+$')
 
 
 def ref_encode(d):
@@ -509,7 +514,11 @@ LATEX_SOUP = ['\\', '\\alpha', '\\alpha ', '\\alpha  \n', '\\alpha \n\n', '\\beg
               '\\)', '\\[', '\\]', '{', '}', '^', '_', '%', '% c\n', '%c\n  \n', '%c\n \n\n x', '~', '``', "''", '--',
               '---', '-', '!`', '?`', '&', '#', ' ', '\n', '\n\n', '\t', "\\'", "\\'{e}", '\\"o', '\\^\\i', '\\\\',
               '\\ ', '\\%', '\\é', '\\begin\u00a0{x}', '\\x\u2003', 'é', 'ø', '→', 'α', 'a', 'b', 'AB', 'ABC', '...',
-              '"', '<', '>', '|', 'e\u0301', 'A\u030a', '\u212b', '\x7f', '\x00', '\u0085']
+              '"', '<', '>', '|', 'e\u0301', 'A\u030a', '\u212b', '\x7f', '\x00', '\u0085',
+              # environment names: every ASCII punctuation character inside the braces (most make the call ill-formed)
+              '\\begin{a<b}', '\\begin{a,b}', '\\end{x=y}', '\\begin{a+b}', '\\end{q?}', '\\begin{a@b}', '\\begin{a;b}', '\\begin{a>b}',
+              '\\begin{a\\b}', '\\begin{a-b}', '\\end{a_b}', '\\begin{a.b:c/d!e^f(g)[h]}', '\\begin{a|b}', '\\begin{a"b}',
+              "\\begin{a'b}", '\\begin{a`b}', '\\begin{a~b}', '\\end{a#b}', '\\begin{a&b}', '\\begin{a$b}', '\\begin{a%b}', '\\begin{a b*}']
 KEEPS = ['\\${}^_', '\\', '\\$', '%\\', ' \\{}', '\n\\$', '~&-\\', 'éa\\', '', '\\${}^_%~ \n']
 
 
